@@ -33,13 +33,15 @@ import (
 
 // The gutter is parsed tolerantly (|, box-drawing bars or a colon; one or
 // several carets): the property is about what is shown, not about the frame.
-var numbered = regexp.MustCompile(`^ *(\d+) (?:\||│|┃|:) (.*)$`)
-var caretLn = regexp.MustCompile(`^ * (?:\||│|┃|:) ([ \t]*)\^+~*$`)
+var numbered = regexp.MustCompile(`^( *(\d+) (?:\||│|┃|:) )(.*)$`)
+var caretLn = regexp.MustCompile(`^( * (?:\||│|┃|:) )([ \t]*)\^+~*$`)
 
 type exLine struct {
-	n     int
-	text  string
-	caret *string // prefix of the caret line following this line, if any
+	n      int
+	text   string
+	gutter int     // display width of what precedes the text (number, bar, blank)
+	caret  *string // prefix of the caret line following this line, if any
+	cgut   int     // display width of what precedes the caret line's prefix
 }
 
 type excerpt struct {
@@ -52,8 +54,8 @@ func parseMessage(msg string) *excerpt {
 	ex := &excerpt{}
 	for _, ln := range parts[1:] { // parts[0] is the header line
 		if m := numbered.FindStringSubmatch(ln); m != nil {
-			n, _ := strconv.Atoi(m[1])
-			ex.lines = append(ex.lines, exLine{n: n, text: m[2]})
+			n, _ := strconv.Atoi(m[2])
+			ex.lines = append(ex.lines, exLine{n: n, text: m[3], gutter: utf8.RuneCountInString(m[1])})
 			continue
 		}
 		if m := caretLn.FindStringSubmatch(ln); m != nil {
@@ -61,8 +63,9 @@ func parseMessage(msg string) *excerpt {
 				ex.strayCarets++
 				continue
 			}
-			p := m[1]
+			p := m[2]
 			ex.lines[len(ex.lines)-1].caret = &p
+			ex.lines[len(ex.lines)-1].cgut = utf8.RuneCountInString(m[1])
 		}
 	}
 	return ex
@@ -198,7 +201,8 @@ func matches(ex *excerpt, v []byte, L, C, limit int, agg *core.Agg) (ok bool, wh
 					}
 					contains = true
 					upto := l.text[:p.lead+(C-1-p.off)]
-					if caretPrefixOK(*l.caret, upto) {
+					// the caret row must start its text where the excerpt row does
+					if caretPrefixOK(*l.caret, upto) && l.cgut == l.gutter {
 						okCaret = true
 					}
 				}
